@@ -29,6 +29,12 @@ func hC12Source() string {
 		// attribute groups that are used but not defined (materialised as empty
 		// groups: the documented exception of C05), on different entities
 		"declare void @u1() #7\ndeclare void @u2() #8 #6\n@u3 = global i32 0 #9\n" +
+		// named scalar types next to the plain types, the same literal spelled at
+		// both in different top-level entities (whichever is translated first must
+		// not decide the type of the other's constant)
+		"%real = type double\n%word = type i32\n" +
+		"@r1 = global double 1.0\n@r2 = global %real 1.0\n@w1 = global i32 7\n@w2 = global %word 7\n" +
+		"define %real @fr2() {\n\tret %real 2.5\n}\ndefine double @fr1() {\n\tret double 2.5\n}\n" +
 		"!n10 = !{!7}\n!n9 = !{!3}\n!" + a + " = !{!3, !7}\n" +
 		"!7 = !{!3}\n!3 = distinct !{}\n!5 = !{!\"s\"}\n"
 }
